@@ -500,6 +500,18 @@ Definition lst_shift (dir : bool) (s : state) (ts : list obj) (vs : list (option
 Definition lst_set_parent (s : state) (ts : list obj) (p : option obj) :=
   all_or_nothing s (lst_set_parent_seq s ts p).
 
+(* bulk assignment of a relation list to every element of a task list:  lst.children = vs,
+   lst.predecessors = vs (dir = true), lst.successors = vs.  The SAME value is handed to every element (the
+   value is materialised once); for children each later element takes the tasks away from the earlier one. *)
+Definition lst_set_children_seq (s : state) (ts : list obj) (vs : list (option obj)) :=
+  seq_calls (fun s' t => set_children s' t vs) s ts.
+Definition lst_set_links_seq (dir : bool) (s : state) (ts : list obj) (vs : list (option obj)) :=
+  seq_calls (fun s' t => set_links dir s' t vs) s ts.
+Definition lst_set_children (s : state) (ts : list obj) (vs : list (option obj)) :=
+  all_or_nothing s (lst_set_children_seq s ts vs).
+Definition lst_set_links (dir : bool) (s : state) (ts : list obj) (vs : list (option obj)) :=
+  all_or_nothing s (lst_set_links_seq dir s ts vs).
+
 (* ================= WBS ================= *)
 Definition wroot (s : state) (w : wid) : obj := nth w (wroots s) O.
 
@@ -591,6 +603,8 @@ Inductive op :=
 | OpShift (dir : bool) (t : obj) (vs : list (option obj))
 | LstShift (dir : bool) (ts : list obj) (vs : list (option obj))
 | LstSetParent (ts : list obj) (p : option obj)
+| LstSetChildren (ts : list obj) (vs : list (option obj))          (* lst.children = vs *)
+| LstSetLinks (dir : bool) (ts : list obj) (vs : list (option obj)) (* lst.predecessors / lst.successors = vs *)
 | WbsRemove (w : wid) (t : option obj)
 | WbsRemoveAll (w : wid) (ids : list Z)
 | SetEst (t : obj) (e : option Z)
@@ -614,6 +628,7 @@ Definition args_ok (s : state) (o : op) : bool :=
   | ChSort o _ _ | ChReorder o _ | ChRemoveAll o _ | LnRemoveAll _ o _ | SetEst o _ | SetPrio o _ => okobj s o
   | LstShift _ ts vs => forallb (okobj s) ts && oklist s vs
   | LstSetParent ts p => forallb (okobj s) ts && okopt s p
+  | LstSetChildren ts vs | LstSetLinks _ ts vs => forallb (okobj s) ts && oklist s vs
   | WbsRemove w t => okw s w && okopt s t
   | WbsRemoveAll w _ => okw s w
   end.
@@ -640,6 +655,7 @@ Definition pub_args (s : state) (o : op) : bool :=
   | LnRemoveAll _ o _ | SetEst o _ | SetPrio o _ => pubobj s o
   | LstShift _ ts vs => forallb (pubobj s) ts && publist s vs
   | LstSetParent ts p => forallb (pubobj s) ts && pubopt s p
+  | LstSetChildren ts vs | LstSetLinks _ ts vs => forallb (pubobj s) ts && publist s vs
   | WbsRemove w t => okw s w && pubopt s t
   | WbsRemoveAll w _ => okw s w
   end.
@@ -666,6 +682,8 @@ Definition step' (s : state) (o : op) : state * outcome :=
   | OpShift d t vs => op_shift d s t vs
   | LstShift d ts vs => lst_shift d s ts vs
   | LstSetParent ts p => lst_set_parent s ts p
+  | LstSetChildren ts vs => lst_set_children s ts vs
+  | LstSetLinks d ts vs => lst_set_links d s ts vs
   | WbsRemove w t => wbs_remove s w t
   | WbsRemoveAll w ids => wbs_remove_all s w ids
   | SetEst t e => set_est s t e
